@@ -264,3 +264,47 @@ Example C14_source_print_example :
   call_method call_ref (prims_ledger SrcLedgerPrint.refs (fun _ _ => Stuck)) src_print_selection
     [("where", PRef 0); ("table", PList (map (prow Z enc) [2; 7; 4]))]%string [] = Exc 5.
 Proof. split; [exists 0%nat; split; [reflexivity|intros e; reflexivity]|split; vm_compute; reflexivity]. Qed.
+
+(* ---- tie by translation of has_account(context, pattern) (beanquery/query_env.py), the function a filter
+   `FROM has_account('p')` of PRINT / SELECT calls (bld-env2).  Gen/SrcHasAccount.v holds the PyMini term of the whole function,
+   regenerated on every run (harness/vf/src_hasaccount.py); model and primitives: Model/PrimsHasAccount.v; proof:
+   Proofs/SrcHasAccount.v.  The regular-expression engine (re_valid: the pattern compiles; re_search p a: the pattern compiled
+   with re.IGNORECASE is found somewhere in a) and the ledger (accounts_of e: the items of getters.get_entry_accounts(e)) are
+   universally quantified.  The model's value is: re.error for an invalid pattern, otherwise the bool "some account of the
+   entry is matched by a SEARCH of the pattern ignoring case". ---- *)
+From Verif Require Import Model.PrimsHasAccount Gen.SrcHasAccount Proofs.SrcHasAccount.
+
+Theorem C14_source_has_account : forall (call_ref : nat -> list pv -> pv) (re_valid : list Z -> bool)
+    (re_search : list Z -> list Z -> bool) (accounts_of : pv -> list (list Z)) (e : pv) (pattern : list Z),
+  call_function call_ref (prim_has_account re_valid re_search accounts_of) envh_has_account
+                [p_context e; PV (VStr pattern)]
+  = ha_result (has_account re_valid re_search accounts_of e pattern).
+Proof. exact has_account_src. Qed.
+Print Assumptions C14_source_has_account.
+
+(* what the filter selects: PRINT FROM has_account('p') with a valid pattern prints, in table order, exactly the entries one
+   of whose accounts the pattern is found in (the generic selection theorem at the filter has_account denotes) *)
+Theorem C14_print_has_account : forall (re_valid : list Z -> bool) (re_search : list Z -> list Z -> bool)
+    (accounts_of : pv -> list (list Z)) (pattern : list Z) (t : list pv),
+  re_valid pattern = true ->
+  execute_print (Some (has_account_filter re_valid re_search accounts_of pattern)) t
+  = POk (filter (fun e => existsb (re_search pattern) (accounts_of e)) t).
+Proof.
+  intros rv rs ao p t Hv. rewrite (@print_selection pv).
+  - f_equal. apply filter_ext. intros e. unfold selected, has_account_filter, has_account. rewrite Hv.
+    destruct (existsb (rs p) (ao e)); reflexivity.
+  - intros e _. unfold raises, has_account_filter, has_account. rewrite Hv. reflexivity.
+Qed.
+Print Assumptions C14_print_has_account.
+
+(* Non-vacuity: a toy engine (the pattern occurs as the first character, ignoring nothing), an entry with two accounts *)
+Example C14_source_has_account_example :
+  let rs := fun (p a : list Z) => match p, a with x :: _, y :: _ => x =? y | _, _ => false end in
+  let ao := fun (_ : pv) => [[65; 58; 66]; [69; 58; 70]] in
+  call_function (fun _ _ => PNone) (prim_has_account (fun p => negb (Nat.eqb (List.length p) 0)) rs ao) envh_has_account
+    [p_context PNone; PV (VStr [69])] = Ok (PBool true) /\
+  call_function (fun _ _ => PNone) (prim_has_account (fun p => negb (Nat.eqb (List.length p) 0)) rs ao) envh_has_account
+    [p_context PNone; PV (VStr [70])] = Ok (PBool false) /\
+  call_function (fun _ _ => PNone) (prim_has_account (fun p => negb (Nat.eqb (List.length p) 0)) rs ao) envh_has_account
+    [p_context PNone; PV (VStr [])] = Exc ReError.
+Proof. vm_compute. repeat split; reflexivity. Qed.
